@@ -32,6 +32,7 @@ def run(tier, seed):
     res = {"violations": [], "broken": [], "coverage": {}}
     tie = mu_common.tie(res, "muwait_replay", "MuWaitModel", [("muwait_mix", {"VRT_MODE": 0, "VRT_CV": 0}, 250, 2500),
                                                               ("muwait_mix", {"VRT_MODE": 1, "VRT_CV": 0}, 150, 1500),
+                                                              ("muwait_mix", {"VRT_MODE": 5, "VRT_CV": 0}, 150, 1500),
                                                               ("mu_mix", {}, 150, 1500)], tier, seed)
     specs = [("muwait_mix", {"VRT_MODE": 0}, 4000, 80000), ("muwait_mix", {"VRT_MODE": 1}, 1000, 20000), ("muwait_mix", {"VRT_MODE": 2}, 2500, 50000),
              ("muwait_mix", {"VRT_MODE": 0}, 800, 15000, "binary"), ("muwait_mix", {"VRT_MODE": 3}, 1500, 30000), ("muwait_mix", {"VRT_MODE": 0, "VRT_FINE": 600}, 1500, 30000),
@@ -39,12 +40,15 @@ def run(tier, seed):
              # waiter's own timeout would mask); OBS=2: every waiter timed with a far deadline
              ("muwait_mix", {"VRT_MODE": 0, "VRT_OBS": 1}, 1500, 30000), ("muwait_mix", {"VRT_MODE": 0, "VRT_OBS": 2}, 1500, 30000),
              # F13's shape (reader-mode nsync_mu_wait while a reader is the designated waker): scripted and random schedules
+             # producers / consumers: conditions that become false again, so woken waiters wait a second time inside one call (MODE 5)
+             ("muwait_mix", {"VRT_MODE": 5}, 3000, 60000), ("muwait_mix", {"VRT_MODE": 5, "VRT_PLAINPM": 30}, 1000, 20000),
              ("rdwait_stuck", {}, 3, 10), ("longwait_stuck", {"VRT_CLOCKP": 0}, 5, 30), ("rdwait_stuck", {"VRT_SCRIPT": 0}, 2500, 50000)]
     cov = scen_common.run_scenarios(res, specs, tier, seed, {"C06", "C05", "C02", "C06x"} | scen_common.LIVENESS | scen_common.CRASHES)
     cov["rule"] = ("muwait_mix: 2..4 waiters on {same f+arg, same f+different arg, eq-equivalent args, different f, no condition} in reader/"
                    "writer mode, setters that end with plain nsync_mu_unlock, a bystander using nsync_mu_unlock_without_wakeup after sections "
                    "that change nothing, plain lockers queued in front of conditional waiters (MODE 2), cv waiters, timeouts and "
-                   "cancellation; oracles: every untimed waiter returns once its condition is true (stuck detector), no condition is "
+                   "cancellation, producers and consumers whose conditions become false again (MODE 5: a woken waiter whose token was taken waits again "
+                   "inside the same call); oracles: every untimed waiter returns once its condition is true (stuck detector), no condition is "
                    "evaluated while another thread is inside a write section; non-trivial = runs with semaphore sleeps")
     cov.update(tie)
     res["coverage"] = cov
